@@ -17,6 +17,8 @@ type emPair struct {
 	m  *asmcat.Model
 	// lenBias is added to em.Len() when em is a clone that holds only the bytes emitted since Clone
 	lenBias int
+	// target is em's target buffer when the property needs it (data emitted from the buffer itself)
+	target []byte
 }
 
 func needOf(ops []asmcat.Op) int {
@@ -73,7 +75,7 @@ func (a emSnap) diff(b emSnap, withFlags bool) string {
 func (p *emPair) step(i int, o asmcat.Op) error {
 	before := snapOf(p.em)
 	accepted, reason := p.m.Apply(o)
-	ret, pan := asmcat.ApplyReal(p.em, o)
+	ret, pan := asmcat.ApplyRealIn(p.em, o, p.target)
 	if !accepted {
 		if pan == nil {
 			return fmt.Errorf("op %d %v must be refused (%s) but was accepted", i, o, reason)
